@@ -44,6 +44,14 @@ def check(model: Model, rep: Report, tier: str):
         x4(model, rep)
     with rep.isolated():
         x5(model, rep)
+    from .c03 import h5
+    from ..resolve import CallGraph
+    from .common import share_rule
+    with rep.isolated():
+        cg = CallGraph(model)
+        share_rule(rep, model, lambda m, r: h5(m, r, cg), "C12.X6", "no index computation is memoised under a key that lets two kernels / strategies with different "
+                   "offsets share an entry (= C03.H5, memos inside acquisition_indexing only)",
+                   keep=lambda o: "acquisition_indexing" in o["loc"])
 
 
 # ---------------------------------------------------------------------------------------------
